@@ -183,10 +183,26 @@ def anchored_docs(key):
                 [(("base", "password"), "secret", "shared secret"),
                  (("list", 0, "token"), "secret", "third\r\nsecret"),
                  (("list", 0, "password"), "secret", "other")], []))
+    # a secret inside an anchored CONTAINER which is aliased elsewhere: the
+    # one scalar is reached by as many routes as the container has sites
+    out.append(("aliased-hash",
+                "a: &H\n  secret: %s\n  other: plain\nb: *H\nc: [*H]\n" % enc,
+                [(("a", "secret"), "secret", "shared secret"),
+                 (("a", "other"), "plain", "plain"),
+                 (("b", "secret"), "secret", "shared secret"),
+                 (("c", 0, "secret"), "secret", "shared secret")],
+                [[("a", "secret"), ("b", "secret"), ("c", 0, "secret")]]))
+    out.append(("aliased-list",
+                "a: &L\n  - %s\n  - plain\nb: *L\ntop: %s\n" % (enc, enc2),
+                [(("a", 0), "secret", "shared secret"),
+                 (("a", 1), "plain", "plain"),
+                 (("b", 0), "secret", "shared secret"),
+                 (("top",), "secret", "other")],
+                [[("a", 0), ("b", 0)]]))
     return out
 
 
-N_ANCHORED = 6
+N_ANCHORED = 8
 
 
 def plan(tier):
